@@ -43,8 +43,15 @@ def deliver(v):
 
 class SqliteEngine(object):
     name = 'sqlite'
-    def __init__(self, dataset='pairs'):
-        self.db, self.data = qx.get_db(dataset)
+    def __init__(self, dataset='pairs', define=None, load=None):
+        if define is None: self.db, self.data = qx.get_db(dataset)
+        else:
+            from pony import orm
+            self.db, self.data = orm.Database(), None
+            define(self.db)
+            self.db.bind('sqlite', ':memory:')
+            self.db.generate_mapping(create_tables=True)
+            load(self.db)
         self.n = 0
     def run(self, q):
         self.n += 1
@@ -55,11 +62,11 @@ class SqliteEngine(object):
         with db_session: return self.db, q.make(self.db, 'str').get_sql()
 
 class ModelEngine(object):
-    def __init__(self, dialect, dataset='pairs'):
+    def __init__(self, dialect, dataset='pairs', define=None, load=None):
         self.name = dialect
-        self.data = qx.dataset(dataset)
+        self.data = qx.dataset(dataset) if define is None else None
         self.db = db = dm.capture_database(dialect)
-        qx.define(db)
+        (define or qx.define)(db)
         db.generate_mapping()
         self.paramstyle = db.provider.paramstyle
         self.sub = dm.Substrate(dialect, extended=True)
@@ -70,7 +77,8 @@ class ModelEngine(object):
         db._exec_sql = self._exec_sql          # instance attribute: shadows CaptureDatabase._exec_sql
         self.last = None
         self.n = 0
-        qx.load(db, self.data)
+        if load is None: qx.load(db, self.data)
+        else: load(db)
         self.loaded = dict((t.name, self.sub.con.execute('select count(*) from "%s"' % t.name).fetchone()[0]) for t in db.schema.tables.values())
     def _exec_sql(self, sql, arguments=None, returning_id=False, start_transaction=False):
         self.db.log.append((sql, arguments))
@@ -118,12 +126,13 @@ R_FMOD = 'modulo with a floating-point operand (the substrate % works on integer
 R_MYDIV = 'MySQL: integer / integer yields a decimal, not an integer (operator cannot be modelled on the substrate)'
 R_MYAVG = 'MySQL: AVG() of exact-value (integer) arguments is a DECIMAL rounded to scale + 4 digits (div_precision_increment), not a double'
 R_MYDATE = 'MySQL: result type of COALESCE / CASE / LEAST / GREATEST mixing a DATE column with a date parameter (a string literal under pymysql) is a string; type aggregation is not modelled'
+R_PGCONCAT = 'PostgreSQL: || with a floating-point operand (the text form of a double differs between the substrate and PostgreSQL; || cannot be modelled)'
 R_ORD = 'collation: ordering of strings (<, <=, >, >=, between, min/max, ORDER BY) follows the database collation'
 R_MYEQ = 'collation: MySQL string equality / DISTINCT / GROUP BY / IN are case- and accent-insensitive and pad-space under the default collation'
 R_ZERO = 'PostgreSQL raises division_by_zero for the whole statement (Python raises ZeroDivisionError on that row, too)'
 ORDER_OPS = ('lt', 'le', 'gt', 'ge', 'between', 'min2', 'max2', 'min3', 'max3', 'min', 'max', 'qmin', 'qmax')
 EQ_OPS = ('eq', 'ne', 'in_list', 'not_in_list', 'in_ms', 'not_in_ms', 'chain_eq_eq', 'count', 'qcount')
-STATIC_REASONS = (R_DATE, R_GC, R_DECDIV, R_FMOD, R_MYDIV, R_ORD, R_MYEQ, R_MYAVG, R_MYDATE)
+STATIC_REASONS = (R_DATE, R_GC, R_DECDIV, R_FMOD, R_MYDIV, R_ORD, R_MYEQ, R_MYAVG, R_MYDATE, R_PGCONCAT)
 
 def _item(t): return qx.item_t(t) if qx.is_ms(t) else t
 
@@ -134,8 +143,10 @@ def node_reason(d, n):
     ts = [_item(c.t) for c in n.a]
     if op in ('truediv', 'floordiv', 'mod'):
         if DEC in ts: return R_DECDIV
-        if op == 'mod' and FLOAT in ts: return R_FMOD
+        if op == 'mod' and (FLOAT in ts or any(m.op == 'pow' for c in n.a for m in qx.walk(c))): return R_FMOD      # int ** negative int is a float
         if d == 'mysql' and op != 'mod' and ts == [INT, INT]: return R_MYDIV
+    if d == 'postgres' and op in ('concat', 'concat_fn2', 'concat_fn3', 'fstr2') \
+            and any(c.t == FLOAT or any(m.op in ('pow', 'truediv', 'to_float') for m in qx.walk(c)) for c in n.a): return R_PGCONCAT
     if d == 'mysql':
         if op in ('avg', 'qavg') and ts == [INT]: return R_MYAVG
         if n.t == DATE and op in ('coalesce2', 'coalesce3', 'ifexp', 'min2', 'max2', 'min3', 'max3') \
@@ -178,3 +189,54 @@ def zero_divisor(ev, data, q):
                         if ev.value(dv, qx.Env({'p': o})) == 0: return True
                     except Exception: pass
     return False
+
+# ------------------------------------------------------------------------------------------------------------
+# a second, tiny schema with a composite primary key: the COUNT(DISTINCT row) forms
+def ck_define(db):
+    from pony.orm import PrimaryKey, Required, Optional, Set
+    class Owner(db.Entity):
+        id = PrimaryKey(int)
+        name = Required(str)
+        items = Set('Item')
+    class Item(db.Entity):
+        a = Required(int)
+        b = Required(int)
+        w = Optional(int)
+        owner = Optional(Owner)
+        PrimaryKey(a, b)
+
+CK_OWNERS = [(1, 'x'), (2, 'y'), (3, 'z')]
+CK_ITEMS = [(1, 1, 5, 1), (1, 2, None, 1), (2, 1, 5, 2), (2, 2, -1, None), (3, 1, 2, 1)]       # a, b, w, owner
+def ck_load(db):
+    from pony.orm import db_session
+    with db_session:
+        O = {i: db.Owner(id=i, name=n) for i, n in CK_OWNERS}
+        for a, b, w, o in CK_ITEMS: db.Item(a=a, b=b, w=w, owner=O.get(o))
+
+class SrcQuery(object):
+    """a query given as source text over the composite-key schema, with its Python answer (a set of rows)"""
+    order, proj, fors, conds = (), (), (), ()
+    def __init__(self, name, text, expect, method=None):
+        self.name, self.text, self.expect, self.method = name, text, expect, method
+    def all_nodes(self): return []
+    def distinct(self): return False
+    def source(self, fe='str'): return 'select(%r)%s' % (self.text, '.count()' if self.method == 'count' else '')
+    def to_json(self): return dict(form=self.name)
+    def run(self, db, fe='str'):
+        from pony import orm
+        with orm.db_session:
+            q = orm.select(self.text, dict(Owner=db.Owner, Item=db.Item, count=orm.count, len=len))
+            if self.method == 'count': return [(q.count(),)]
+            return [qx.norm_row(r) for r in q[:]]
+
+def ck_queries():
+    per_owner = {o: len([i for i in CK_ITEMS if i[3] == o]) for o, _ in CK_OWNERS}
+    pos_w = {o: len([i for i in CK_ITEMS if i[3] == o and i[2] is not None and i[2] > 0]) for o, _ in CK_OWNERS}
+    E = lambda o: qx.EntRef('Owner', o)
+    return [SrcQuery('count(o.items) per owner', '(o.id, count(o.items)) for o in Owner', set(per_owner.items())),
+            SrcQuery('len(o.items) per owner', '(o.id, len(o.items)) for o in Owner', set(per_owner.items())),
+            SrcQuery('count(i) of all items', 'count(i) for i in Item', {(len(CK_ITEMS),)}),
+            SrcQuery('count(i) joined per owner', '(o.id, count(i)) for o in Owner for i in o.items', set((o, n) for o, n in per_owner.items() if n)),
+            SrcQuery('having count(o.items) > 1', 'o for o in Owner if count(o.items) > 1', set((E(o),) for o, n in per_owner.items() if n > 1)),
+            SrcQuery('count(filtered subquery) per owner', '(o.id, count(i for i in o.items if i.w > 0)) for o in Owner', set(pos_w.items())),
+            SrcQuery('items.count()', 'i for i in Item', {(len(CK_ITEMS),)}, method='count')]
